@@ -350,7 +350,7 @@ type bound struct {
 func bounds(tier string) []bound {
 	// simplest first: short histories with many deviations, then longer ones with fewer
 	if tier == "thorough" {
-		return []bound{{1, 2, 0}, {2, 2, 0}, {3, 1, 3}, {3, 2, 2}, {4, 0, 3}, {4, 1, 2}}
+		return []bound{{1, 2, 0}, {2, 2, 0}, {3, 1, 3}, {4, 0, 3}, {3, 2, 2}}
 	}
 	return []bound{{1, 2, 0}, {2, 1, 3}, {2, 2, 2}, {3, 0, 3}, {3, 1, 2}}
 }
